@@ -512,6 +512,64 @@ fn repeated_runs(inp: &Input, reps: usize, l: &mut Local) {
     l.outcome(&format!("{}: {} distinct outputs over repeated runs", inp.name, distinct.len().min(9)));
 }
 
+/// Space `print-history`: a report must not depend on which reports were printed before on the same thread.
+/// Every sequence of 2 or 3 process states over 5 CPUs (32-bit x86 / ARM, 64-bit amd64 / arm64, unknown CPU) is
+/// printed in order on a fresh thread; the LAST report must equal the same state printed alone on a fresh thread.
+fn history_space() -> Space {
+    use vh::procgen::{self, CpuK, Model, ThreadM};
+    const CPUS: [CpuK; 5] = [CpuK::X86, CpuK::Amd64, CpuK::Unknown, CpuK::Arm, CpuK::Arm64];
+    fn state(cpu: CpuK) -> ProcessState {
+        let mut m = Model::new(cpu, 0x8201);
+        m.threads = vec![ThreadM { tid: 1, ctx_ok: true, ip: 0x4000_1000, sp: procgen::STACK_BASE + 8 }];
+        m.modules = vec![procgen::app_module()];
+        match procgen::process_model(&m) {
+            procgen::Proc::Ok(s) => *s,
+            _ => panic!("c13: the helper dump for {cpu:?} does not process"),
+        }
+    }
+    let seqs: Vec<Vec<usize>> = {
+        let mut v = vec![];
+        for a in 0..5 {
+            for b in 0..5 {
+                v.push(vec![a, b]);
+                for c in 0..5 {
+                    v.push(vec![a, b, c]);
+                }
+            }
+        }
+        v
+    };
+    let seqs = Arc::new(seqs);
+    let s2 = seqs.clone();
+    Space::new(
+        "print-history",
+        seqs.len() as u64,
+        move |i, l| {
+            let seq = seqs[i as usize].clone();
+            let last = *seq.last().unwrap();
+            let alone = std::thread::spawn(move || render(&state(CPUS[last]))).join().expect("c13: helper thread");
+            let seq2 = seq.clone();
+            let after = std::thread::spawn(move || {
+                let mut r = None;
+                for k in seq2 {
+                    r = Some(render(&state(CPUS[k])));
+                }
+                r.unwrap()
+            })
+            .join()
+            .expect("c13: helper thread");
+            l.eval();
+            l.distinct(&("history", &seq));
+            l.outcome("print-history sequence");
+            if after != alone {
+                let (sig, what) = describe_difference(&alone, &after);
+                l.violation(format!("c13:nondeterministic-output:depends-on-earlier-reports:{sig}"), format!("the report of a {:?} dump printed after {:?} differs from the same report printed alone: {what}", CPUS[last], seq[..seq.len() - 1].iter().map(|k| CPUS[*k]).collect::<Vec<_>>()), json!({"cpu_sequence": seq.iter().map(|k| format!("{:?}", CPUS[*k])).collect::<Vec<_>>()}));
+            }
+        },
+        move |i| json!({"cpu_sequence": s2[i as usize].iter().map(|k| format!("{:?}", CPUS[*k])).collect::<Vec<_>>()}),
+    )
+}
+
 fn main() {
     run_check("C13", |ctx| {
         let thorough = ctx.tier == Tier::Thorough;
@@ -519,7 +577,7 @@ fn main() {
         let mut def = CheckDef::new(
             "C13",
             "model_checking",
-            "E2 controlled scheduler over the real process_minidump future (threads walked through join_all): for every generated input (3 threads x 3 modules, each module asked for by two threads; variants: module names differing only in case / same binary under two names, plain, 16-row /proc limits, alias-colliding CFI rules, missing+corrupt symbols, amd64 with 8 register rules), supplier suspensions per lookup 1..2 [thorough 3] and spurious-poll budget 0..1, EVERY IO completion order / poll interleaving is executed and all four reports (text, brief, JSON, pretty JSON) must equal the zero-delay run byte for byte; plus every supplier delay vector in {0..2}^n under a poll-to-completion executor. Hash seeds cannot be enumerated: 32 [thorough 128] repeated in-process runs (fresh RandomState per HashMap) alternating with a free-running 4-thread tokio runtime are LABELLED SAMPLING and contribute evidence only; each input is also processed three times in a row with one symbolizer (warm symbol cache) and printed after a 32-bit report on a fresh thread. distinct_nontrivial = distinct (input, suspensions, completion order) + delay vectors.",
+            "E2 controlled scheduler over the real process_minidump future (threads walked through join_all): for every generated input (3 threads x 3 modules, each module asked for by two threads; variants: module names differing only in case / same binary under two names, plain, 16-row /proc limits, alias-colliding CFI rules, missing+corrupt symbols, amd64 with 8 register rules), supplier suspensions per lookup 1..2 [thorough 3] and spurious-poll budget 0..1, EVERY IO completion order / poll interleaving is executed and all four reports (text, brief, JSON, pretty JSON) must equal the zero-delay run byte for byte; plus every supplier delay vector in {0..2}^n under a poll-to-completion executor. Hash seeds cannot be enumerated: 32 [thorough 128] repeated in-process runs (fresh RandomState per HashMap) alternating with a free-running 4-thread tokio runtime are LABELLED SAMPLING and contribute evidence only; each input is also processed three times in a row with one symbolizer (warm symbol cache) and printed after a 32-bit report on a fresh thread; space print-history prints every sequence of 2 or 3 reports over 5 CPUs (32-bit, 64-bit, unknown) on a fresh thread and compares the last with the same report printed alone. distinct_nontrivial = distinct (input, suspensions, completion order) + delay vectors.",
         );
         def.exhaustive = false; // the hash-seed half is repetition, not enumeration
         def.assumptions = vec![
@@ -568,6 +626,7 @@ fn main() {
         let (i5, i6) = (ins.clone(), ins.clone());
         let reps = if thorough { 128 } else { 32 };
         def.spaces.push(Space::new("repeated-runs-sampled", ins.len() as u64, move |i, l| repeated_runs(&i5[i as usize], reps, l), move |i| json!({"input": i6[i as usize].name, "repetitions": reps, "kind": "labelled sampling of hash seeds"})).chunked(1).wall(600_000));
+        def.spaces.push(history_space());
         def.finish = Some(Box::new(|total, extra| {
             let g = |k: &str| total.counters.get(k).copied().unwrap_or(0);
             extra.insert("states".into(), json!(g("states").max(1)));
